@@ -68,7 +68,7 @@ def _rewrite_demo(demo_src, wt):
     """demos hard-code the agent's worktree path; point them at the scratch tree"""
     txt = open(demo_src).read()
     import re
-    txt = re.sub(r"/tmp/seed[23456]?_C\d+", wt, txt)
+    txt = re.sub(r"/tmp/seed[234567]?_C\d+", wt, txt)
     out = os.path.join(wt, "_demo_run.py")
     open(out, "w").write(txt)
     return out
@@ -125,18 +125,19 @@ def cmd_detect(sid, props, tier="quick", quiet=False):
     for p, v in out.items():
         meta["detection"]["%s/%s" % (p, tier)] = v
     json.dump(meta, open(os.path.join(d, "meta.json"), "w"), indent=1)
-    # replays written while testing a mutant are not evidence about /repo
-    shutil.rmtree(os.path.join(VERIF, "replays"), ignore_errors=True)
+    # replays written while testing a mutant live in the scratch worktree (see pbt/runner.py)
     return out
 
 
-def cmd_matrix(tier):
+def cmd_matrix(tier, shard=None):
     rows = []
-    for sid in sorted(os.listdir(SEEDED)):
-        if not os.path.exists(os.path.join(SEEDED, sid, "patch.diff")):
-            continue
+    ids = [sid for sid in sorted(os.listdir(SEEDED)) if os.path.exists(os.path.join(SEEDED, sid, "patch.diff"))]
+    if shard:
+        i, n = (int(v) for v in shard.split("/"))
+        ids = ids[i::n]
+    for sid in ids:
         st = json.load(open(os.path.join(SEEDED, sid, "meta.json"))).get("status")
-        if st in ("neutralised", "out-of-scope"):
+        if st in ("neutralised", "out-of-scope", "out-of-domain"):
             print("%-28s skipped (%s)" % (sid, st))
             continue
         out = cmd_detect(sid, [], tier, quiet=True)
@@ -169,7 +170,7 @@ def main():
     elif a[0] == "detect":
         cmd_detect(a[1], a[2:], tier)
     elif a[0] == "matrix":
-        cmd_matrix(tier)
+        cmd_matrix(tier, a[1] if len(a) > 1 else None)
     return 0
 
 
